@@ -584,11 +584,15 @@ func brTable(r *binaryReader) bool {
 		(r.bits.pos == 0 && r.bits.state == bssBeforeValue && len(r.bits.stack.arr) == 0 && bsAvail(&r.bits) >= 4 && bsByte(&r.bits, 0) == 0xE0)
 }
 
-// brInv: the bitstream invariant; the context stack mirrors the bitstream's container
-// stack; the current value is boxed as its accessors expect.
-func brInv(r *binaryReader) bool {
-	return bsInv(&r.bits) && len(r.ctx.arr) == len(r.bits.stack.arr) && rdValueWF(&r.reader) && brContainer(r) && brTable(r)
+// brLocal: the quantifier-free part of the binary reader's invariant: the bitstream's
+// bsLocal; the context stack mirrors the bitstream's container stack; the current value is
+// boxed as its accessors expect.
+func brLocal(r *binaryReader) bool {
+	return bsLocal(&r.bits) && len(r.ctx.arr) == len(r.bits.stack.arr) && rdValueWF(&r.reader) && brContainer(r) && brTable(r)
 }
+
+// brInv: brLocal, and the container ends are nested.
+func brInv(r *binaryReader) bool { return brLocal(r) && bsNested(&r.bits) }
 
 // specIonType: the Ion type of the value a descriptor octet starts (Ion binary spec,
 // "Typed Value Formats"); NoType for descriptors that start no user value.
